@@ -127,7 +127,7 @@ def make(cls, feats_quanti, feats_quali, params, n_jobs=1):
 
 
 QUANTI = ["f", "g"]
-QUALI = ["q", "n", "i1", "i2"]
+QUALI = ["q", "n", "m", "i1", "i2"]
 
 
 def h_indep(ctx, cls, n, n_nan, ypat, params, mode):
@@ -136,6 +136,10 @@ def h_indep(ctx, cls, n, n_nan, ypat, params, mode):
     X["g"] = [float((i * 5) % 4) for i in range(N)]
     X["q"] = (["a", "b", "a", "c", "b", "a"] * 3)[:N]
     X["n"] = ([1, 2, 2, 3, 1, 3] * 3)[:N]  # numeric-valued qualitative feature (StringDiscretizer path)
+    import numpy as np
+
+    # a second numeric-valued qualitative feature of another numeric dtype (float32 codes that float64 renders differently)
+    X["m"] = pd.Series(([0.1, 0.2, 0.2, 0.3, 0.1, 0.3] * 3)[:N], dtype=np.float32, index=X.index)
     X["i1"] = [f"id{i}" for i in range(N)]  # identifier-like columns: every modality rarer than min_freq
     X["i2"] = [f"key{(i * 3) % 7}" for i in range(N)]
     y = pd.Series(list(ypat)[:N], index=X.index)
@@ -195,10 +199,10 @@ def h_indep(ctx, cls, n, n_nan, ypat, params, mode):
             extra = [(m, "Pool", FakePool) for m in MODS_POOL]
             with rebound(ctx, [], extra=extra):
                 nj = 2 + ctx.choose("n_jobs", 2)
-                o = make(cls, list(QUANTI), ["q", "n"], params, n_jobs=nj)
+                o = make(cls, list(QUANTI), ["q", "n", "m"], params, n_jobs=nj)
                 st = fit(o, X)
                 if st == "ok":
-                    seq = make(cls, list(QUANTI), ["q", "n"], params, n_jobs=1)
+                    seq = make(cls, list(QUANTI), ["q", "n", "m"], params, n_jobs=1)
                     fit(seq, X)
                     ctx.require(sorted(o.features) == sorted(seq.features), "C10.parallel-differs", f"n_jobs={nj}: kept features {sorted(o.features)} vs sequential {sorted(seq.features)}")
                     for ft in seq.features:
@@ -206,7 +210,7 @@ def h_indep(ctx, cls, n, n_nan, ypat, params, mode):
                     outp, outs = o.transform(X), seq.transform(X)
                     for c in outs.columns:
                         ctx.require(col_equal(list(outp[c]), list(outs[c])), "C10.parallel-differs", f"n_jobs={nj}: transform column {c} differs from n_jobs=1")
-                compare(o, st, X, f"n_jobs>1 with a solver-chosen completion order", QUANTI + ["q", "n"])
+                compare(o, st, X, f"n_jobs>1 with a solver-chosen completion order", QUANTI + ["q", "n", "m"])
     return dict(counters={"ok": 1, "kept": int(kept_ref)}, sample=dict(cls=cls, mode=mode, ypat=ypat, kept={k_: v["kept"] for k_, v in ref.items()}), result=dict(kept={k_: v["kept"] for k_, v in ref.items()}))
 
 
@@ -230,7 +234,7 @@ def obligations(tier):
             name="O10 a feature's fitted grouping and transform do not depend on companion features, on list/column order, on the iteration order of set(features), nor on n_jobs / worker completion order",
             harness=h_indep, jobs=jobs, encodes=k_api.ENC_COMMON + k_api.ENC_CARVER + ["StringDiscretizer.fit", "type_discretizers.fit_feature", "CategoricalDiscretizer.fit", "QualitativeDiscretizer.fit"],
             rebindings=k_api.RB + ["R8 Pool -> in-process pool with solver-chosen completion order; set -> solver-chosen iteration order"],
-            bounds=f"symbolic quantitative feature f (n=3{'' if quick else '-4'} rows +0/1 NaN) with concrete companions g (quantitative), q, n (qualitative, numeric-valued); "
+            bounds=f"symbolic quantitative feature f (n=3{'' if quick else '-4'} rows +0/1 NaN) with concrete companions g (quantitative), q, n (int64 codes), m (float32 codes) (qualitative); "
                    "all orders of set iteration (<= 4 names), all completion orders of the pool, n_jobs in {2,3}",
             outside="real OS processes (pickling, start-up failures): only the order effects of hashing and scheduling are modelled (Pool workers share no memory with the parent)",
             twin_every=7, budget_s=6.0,
